@@ -39,9 +39,10 @@ SPDX_SNIPPET_INDICATOR = b"SPDX-SnippetBegin"
 
 _LOGGER = logging.getLogger(__name__)
 
-# Any run of terminators, in any order. The alternatives are sorted so that
-# the pattern does not depend on the iteration order of the set.
-_END_PATTERN = r"(?:{})*$".format(
+# Any run of terminators, in any order, possibly followed by trailing blanks.
+# The alternatives are sorted so that the pattern does not depend on the
+# iteration order of the set.
+_END_PATTERN = r"(?:{})*[ \t]*$".format(
     "|".join(
         sorted({
             item
